@@ -1,7 +1,7 @@
 SPECIFICATION TSpec
 CONSTANTS
   Img = {1, 2, 3}
-  GKeys = {1, 2, 3, 4, 5, 6}
+  GKeys = {1, 2, 3, 4, 5, 6, 7, 8, 9, 10, 11, 12, 13, 14, 15}
   MaxHeld = 3
   Bugs = {}
 POSTCONDITION LifeAccepted
